@@ -85,6 +85,7 @@ PROP = Property(
     streams=[
         Stream("grid", check, strategy=C.with_entry(gen.retry_case(PROFILE), C.WIDE_ENTRIES), quick=12000, thorough=300000),
         Stream("offgrid", check, strategy=C.with_entry(offgrid_case(), C.RETRY_ENTRIES), quick=4000, thorough=100000),
+        Stream("midflight", check, strategy=C.midflight_case(PROFILE, ["deadline"], C.RECONF_ENTRIES), quick=3000, thorough=60000),
         Stream("reconfigured", lambda case: C.check_reconfigured(case, "C02"), strategy=C.reconfigured_case(PROFILE, ["deadline"]), quick=3000, thorough=60000),
     ],
 )
